@@ -52,7 +52,8 @@ Definition fin_eqb (a b : fin) : bool :=
   match a, b with
   | FFind c, FFind c' | FFirst c, FFirst c' | FTake c, FTake c' | FLast c, FLast c' | FDelete c, FDelete c'
   | FUpdatesMap c, FUpdatesMap c' | FUpdatesStruct c, FUpdatesStruct c' | FCreateStruct c, FCreateStruct c'
-  | FCreateSlice c, FCreateSlice c' | FCreateMap c, FCreateMap c' | FCreateMaps c, FCreateMaps c' => le c c'
+  | FCreateSlice c, FCreateSlice c' | FCreateMap c, FCreateMap c' | FCreateMaps c, FCreateMaps c'
+  | FSaveStruct c, FSaveStruct c' | FSaveSlice c, FSaveSlice c' => le c c'
   | FCount, FCount => true
   | FPluck c, FPluck c' => String.eqb c c'
   | FUpdate c v, FUpdate c' v' => String.eqb c c' && val_eqb v v'
